@@ -3394,7 +3394,7 @@ class C12(TraceCheck):
         nf = rng.randrange(0, 4)
         subqaps = []
         for k in range(nf):
-            subqaps.append({"name": "f%d" % k, "nargs": rng.randrange(1, 4), "tmpl": rng.randrange(0, 4),
+            subqaps.append({"name": "f%d" % k, "nargs": rng.randrange(1, 4), "tmpl": rng.randrange(0, 6),
                             "inner": rng.randrange(0, k) if k else None})
         same_name = nf >= 2 and rng.random() < 0.08
         if same_name:
@@ -3450,7 +3450,7 @@ class C12(TraceCheck):
             # generation may fail), the original program again
             j = rng.randrange(len(subqaps))
             edited = copy.deepcopy(subqaps)
-            edited[j]["tmpl"] = (edited[j]["tmpl"] + rng.randrange(1, 3)) % 3
+            edited[j]["tmpl"] = (edited[j]["tmpl"] + rng.randrange(1, 3)) % 3 if edited[j]["tmpl"] < 3 else rng.randrange(0, 3)
             case["edited_subqaps"] = edited
             case["edit_fault"] = rng.choice([None, ["qapgenf", 1], ["qapgenf", 2], ["qapprove", 1]])
             case["second_run"] = False
